@@ -485,6 +485,12 @@ def stmt_simplifications(s):
         t = ("A", id, Var(name), ZERO, None, deps)
         if t != s:
             yield t
+    if lhs[0] == "Subscript":
+        # likewise "n[index] <- 0", if that mentions fewer identifiers
+        for name in sorted(stmt_idents(s)):
+            t = ("A", id, ("Subscript", Var(name), lhs[2]), ZERO, None, deps)
+            if len(stmt_idents(t)) < len(stmt_idents(s)):
+                yield t
     if cls == "CA":
         yield ("A", id, lhs, rhs, None, deps)
         for c in expr_simplifications(cond):
